@@ -44,6 +44,23 @@ pub fn check_text(enc: &'static Encoding, algo: EncAlgo, src: Src, repl: bool, t
     if out.had_unmappables != !want.unmappables.is_empty() {
         return Some(format!("had_unmappables = {} but the Standard's encoder reports {} unmappable(s)", out.had_unmappables, want.unmappables.len()));
     }
+    // the same text through an output buffer shorter than the output (re-pushing after every
+    // OutputFull): the bytes must still be the Standard's
+    if text.len() >= 6 {
+        let mut h2 = EncHistory::simple(enc, src, repl, text);
+        let n = text.len();
+        h2.caps = vec![h2.min_cap() + (n * 7 + text[n / 2] as usize) % 41];
+        let out2 = drv.run(&h2);
+        if let Some(f) = out2.faults.first() {
+            return Some(format!("[through a {}-byte output buffer] call #{}: {}", h2.caps[0], f.call_index, f.msg));
+        }
+        if !out2.completed {
+            return Some(format!("[through a {}-byte output buffer] stream did not complete", h2.caps[0]));
+        }
+        if out2.out != want_bytes {
+            return Some(format!("[through a {}-byte output buffer] bytes differ: crate {} Standard {}", h2.caps[0], hex(&out2.out), hex(&want_bytes)));
+        }
+    }
     let oe = out.encoder_encoding.map(|e| e.name());
     if oe != Some(model_enc::output_encoding_name(enc)) || Some(enc.output_encoding().name()) != oe {
         return Some(format!("Encoder::encoding() is {:?}, output_encoding() is {}, the Standard's output encoding is {}", oe, enc.output_encoding().name(), model_enc::output_encoding_name(enc)));
@@ -122,6 +139,126 @@ fn check_single(enc: &'static Encoding, algo: EncAlgo, cp: u32) -> Option<(Src, 
                 }
                 if unm != want_raw.unmappables {
                     return Some((src, repl, format!("Unmappable reports differ: crate {:X?} Standard {:X?}", unm, want_raw.unmappables)));
+                }
+            }
+        }
+    }
+    None
+}
+
+/// lean path for short surrogate-free texts: direct API calls, slice and Vec methods, the end of
+/// the stream signalled on the data call or on a separate empty call (the documented way to
+/// finish a stream whose last chunk was already pushed)
+fn check_lean(enc: &'static Encoding, algo: EncAlgo, text: &[u32], final_empty: bool) -> Option<(Src, bool, String)> {
+    let st: String = text.iter().map(|c| char::from_u32(*c).unwrap()).collect();
+    let s8 = st.as_str();
+    let s16v: Vec<u16> = st.encode_utf16().collect();
+    let s16 = &s16v[..];
+    let want_raw = model_enc::encode(algo, text, false);
+    let want_repl = if want_raw.unmappables.is_empty() { want_raw.clone() } else { model_enc::encode(algo, text, true) };
+    for src in [Src::Utf8, Src::Utf16] {
+        for repl in [false, true] {
+            for vec_route in [false, true] {
+                if vec_route && src == Src::Utf16 {
+                    // there are no Vec-receiving methods for UTF-16 sources
+                    continue;
+                }
+                let mut e = enc.new_encoder();
+                let mut dst = [0xA5u8; 160];
+                let mut out: Vec<u8> = Vec::with_capacity(64);
+                let mut unm: Vec<(usize, u32)> = Vec::new();
+                let mut had = false;
+                let mut off = 0usize;
+                let total = if src == Src::Utf8 { s8.len() } else { s16.len() };
+                let mut guard = 0;
+                let mut finishing = !final_empty;
+                let route = |m: String| Some((src, repl, format!("[{}{}] {}", if vec_route { "Vec methods" } else { "slice methods" }, if final_empty { ", end of stream on an empty call" } else { "" }, m)));
+                loop {
+                    guard += 1;
+                    if guard > 4 * text.len() + 8 {
+                        return route("caller loop did not terminate".into());
+                    }
+                    let last = finishing;
+                    let (res, rd, wr) = if vec_route {
+                        let mut v: Vec<u8> = Vec::with_capacity(160);
+                        v.extend_from_slice(b"keep");
+                        let (res, rd) = if repl {
+                            let (r, rd, f) = e.encode_from_utf8_to_vec(&s8[off..], &mut v, last);
+                            had |= f;
+                            (
+                                match r {
+                                    CoderResult::InputEmpty => EncoderResult::InputEmpty,
+                                    CoderResult::OutputFull => EncoderResult::OutputFull,
+                                },
+                                rd,
+                            )
+                        } else {
+                            e.encode_from_utf8_to_vec_without_replacement(&s8[off..], &mut v, last)
+                        };
+                        if !v.starts_with(b"keep") {
+                            return route("the Vec's existing contents were altered".into());
+                        }
+                        let wr = v.len() - 4;
+                        dst[..wr].copy_from_slice(&v[4..]);
+                        (res, rd, wr)
+                    } else if repl {
+                        let (r, rd, wr, f) = match src {
+                            Src::Utf8 => e.encode_from_utf8(&s8[off..], &mut dst, last),
+                            Src::Utf16 => e.encode_from_utf16(&s16[off..], &mut dst, last),
+                        };
+                        had |= f;
+                        (
+                            match r {
+                                CoderResult::InputEmpty => EncoderResult::InputEmpty,
+                                CoderResult::OutputFull => EncoderResult::OutputFull,
+                            },
+                            rd,
+                            wr,
+                        )
+                    } else {
+                        match src {
+                            Src::Utf8 => e.encode_from_utf8_without_replacement(&s8[off..], &mut dst, last),
+                            Src::Utf16 => e.encode_from_utf16_without_replacement(&s16[off..], &mut dst, last),
+                        }
+                    };
+                    if rd > total - off || wr > dst.len() {
+                        return route(format!("read {} / written {} out of range", rd, wr));
+                    }
+                    off += rd;
+                    out.extend_from_slice(&dst[..wr]);
+                    match res {
+                        EncoderResult::InputEmpty => {
+                            if off != total {
+                                return route(format!("InputEmpty with {} of {} units read", off, total));
+                            }
+                            if finishing {
+                                break;
+                            }
+                            finishing = true;
+                        }
+                        EncoderResult::OutputFull => return route("OutputFull with a 160-byte buffer".into()),
+                        EncoderResult::Unmappable(u) => {
+                            had = true;
+                            // index of the character just consumed
+                            let idx = if src == Src::Utf8 { s8[..off].chars().count() } else { char::decode_utf16(s16[..off].iter().cloned()).count() } - 1;
+                            unm.push((idx, u as u32));
+                        }
+                    }
+                }
+                if repl {
+                    if out != want_repl.bytes {
+                        return route(format!("bytes differ: crate {} Standard {}", hex(&out), hex(&want_repl.bytes)));
+                    }
+                    if had != !want_raw.unmappables.is_empty() {
+                        return route(format!("had_unmappables = {}, Standard: {} unmappable(s)", had, want_raw.unmappables.len()));
+                    }
+                } else {
+                    if out != want_raw.bytes {
+                        return route(format!("bytes differ: crate {} Standard {}", hex(&out), hex(&want_raw.bytes)));
+                    }
+                    if unm != want_raw.unmappables {
+                        return route(format!("Unmappable reports differ: crate {:X?} Standard {:X?}", unm, want_raw.unmappables));
+                    }
                 }
             }
         }
@@ -266,6 +403,71 @@ pub fn run(ctx: &Ctx) -> i32 {
         });
         total.merge(st);
         total.exhaustive.push("all ordered pairs over each encoder's class alphabet incl. lone surrogates (triples for ISO-2022-JP; for all encoders in thorough)".into());
+    }
+
+    // (a2) every BMP scalar (and a sample of every astral plane) next to each state-setting context:
+    // [context, c] and [c, context] for contexts = a two-byte character / a katakana / a Roman-state
+    // character (ISO-2022-JP), an ASCII letter, an unmappable character; slice and Vec methods
+    if !fw::should_stop() {
+        let e = super::ench::encoder_encodings();
+        const CL: usize = 16;
+        let st = par_run(ctx, e.len() * CL, |part, st| {
+            let enc = e[part / CL];
+            let lane = part % CL;
+            let algo = enc_algo_for(enc);
+            let alpha: Vec<u32> = hist_enc::alphabet(enc);
+            let mut ctxs: Vec<u32> = vec![0x61];
+            if algo == EncAlgo::Iso2022Jp {
+                ctxs.extend_from_slice(&[0x3042, 0xFF71, 0xA5, 0x2212, 0x80]);
+            } else {
+                if let Some(m) = alpha.iter().find(|c| **c >= 0x80 && !is_sur(**c) && model_enc::mappable(algo, **c)) {
+                    ctxs.push(*m);
+                }
+                if let Some(u) = [0x80u32, 0xFFFF, 0x10FFFF, 0x3094].iter().find(|c| !model_enc::mappable(algo, **c)) {
+                    ctxs.push(*u);
+                }
+            }
+            let mut n = 0u64;
+            let mut scan = |c: u32, st: &mut Stats| -> bool {
+                for &x in &ctxs {
+                    for order in 0..2 {
+                        let text = if order == 0 { [x, c] } else { [c, x] };
+                        n += 1;
+                        if let Some((src, repl, msg)) = check_lean(enc, algo, &text, (c + order) % 2 == 1) {
+                            st.violations.push(violation(enc, src, repl, &text, msg));
+                            return false;
+                        }
+                    }
+                }
+                true
+            };
+            for block in (lane..0x100).step_by(CL) {
+                if fw::should_stop() {
+                    return;
+                }
+                for c in (block as u32 * 0x100)..((block as u32 + 1) * 0x100) {
+                    if is_sur(c) {
+                        continue;
+                    }
+                    if !scan(c, st) {
+                        return;
+                    }
+                }
+            }
+            // astral: every 0x101st scalar of each plane, plus the mapped ranges densely in thorough
+            let step = if ctx.tier == fw::Tier::Thorough { 0x11 } else { 0x101 };
+            for c in ((0x10000 + lane as u32)..0x110000).step_by(step * CL) {
+                if !scan(c, st) {
+                    return;
+                }
+            }
+            st.evals += n * 6;
+            st.nontrivial_enum += n * 6;
+            st.class_n("scalar-next-to-a-state-setting-context", n * 6);
+            st.sample(1, || json!({"encoding": enc.name(), "contexts": ctxs.iter().map(|c| format!("{:X}", c)).collect::<Vec<_>>(), "text": "[context, c] and [c, context] for every BMP scalar c", "routes": ["slice", "vec"], "end_of_stream": ["on the data call", "on an empty call"]}));
+        });
+        total.merge(st);
+        total.exhaustive.push("per encoder: every BMP scalar (and every 0x101st astral scalar) directly after and directly before each of 3-6 state-setting contexts (two-byte character, katakana, Roman-state character, ASCII, unmappable), UTF-8 and UTF-16 sources, raw and replacement, slice and Vec methods, end of stream on the data call or on an empty call".into());
     }
 
     // (b2) two non-ASCII characters inside a long ASCII run (first at offsets 0..=33, second at
